@@ -113,6 +113,11 @@ def execute(scn, k=None, deviations=None, slip=None):
 
         st, v = x.run(setup())
         assert st == "ok", (st, v)
+        if scn.get("server_choices") and w.server is not None:
+            # from here on every request may be overtaken / reordered (deviation-bounded search)
+            w.server.reorder = True
+            if hasattr(w.server, "stall_choice"):
+                w.server.stall_choice = True
         x.mark()
         stop_ns = [None]
 
@@ -375,6 +380,15 @@ def jobs(tier):
         chunk = 12
         for lo in range(0, nk, chunk):
             out.append(dict(scn=scn, ks=list(range(lo, min(lo + chunk, nk))), slips=True))
+    # second deviation: the stop instant combined with one reordered / stalled server request
+    if tier == "thorough":
+        for kind in ("redis", "amqp"):
+            for actor in ("long", "fail_retry", "recurring"):
+                for g in (0.0, 0.02):
+                    scn = dict(kind=kind, g=g, actor=actor, load=3, stop="signal", server_choices=True)
+                    base = execute(scn, None)
+                    for k in range(0, base["iters"]):
+                        out.append(dict(scn=scn, ks=[k], devs=True))
     # process death (Redis keeps the in-flight state outside the process)
     for actor in ("short", "long", "fail_retry", "fail_nack", "result"):
         for load in (1, 3):
@@ -401,11 +415,19 @@ def run_job(job):
                     todo.append((k, [dk, j]))
     if job.get("one"):
         todo = [tuple(job["one"])]
-    for k, slip in todo:
+    devlist = [job.get("dev")]
+    if job.get("devs"):
+        from ..explore import alternatives
+        b0 = execute(scn, job["ks"][0], None, None)
+        devlist = [None] + [[a] for a in alternatives(b0.get("points", []),
+                                                     want=lambda l: l.startswith("order:") or l.startswith("stall:") or l == "amqp-order")]
+        todo = [(job["ks"][0], None)]
+    for dev in devlist:
+      for k, slip in todo:
         if scn.get("stop") == "crash":
             r = execute_crash(scn, k)
         else:
-            r = execute(scn, k, job.get("dev"), slip)
+            r = execute(scn, k, dev, slip)
         if slip is not None and not r.get("slipped"):
             acc.extra["slip_not_applicable"] += 1
             continue
@@ -423,9 +445,9 @@ def run_job(job):
         acc.outcomes.add(digest([scn["kind"], scn["actor"], scn["load"], r["obs"], r["viol"] and sorted(set(v[0] for v in r["viol"]))]))
         for sig, what in r["viol"]:
             acc.violations.append(dict(
-                signature=f"{scn['kind']} {sig} stop-during={r.get('phase')}",
-                what=what + f" [stop at iteration {k}, time slip {slip}, scenario {scn}]",
-                job=dict(scn=scn, ks=[], one=[k, slip], dev=job.get("dev")),
+                signature=f"{scn['kind']} {sig} stop-during={r.get('phase')}" + (" +server-deviation" if dev else ""),
+                what=what + f" [stop at iteration {k}, time slip {slip}, server deviations {dev}, scenario {scn}]",
+                job=dict(scn=scn, ks=[], one=[k, slip], dev=dev),
                 detail=dict(obs=r["obs"], exc=r.get("exc_log")),
             ))
         if len(acc.samples) < 2:
